@@ -96,7 +96,7 @@ check("C17",
       "a harness-defined driver and on the real XTBDriver.  Part 2: TLC enumerates every command list of length 1..3 (4 in "
       "the thorough tier) over 6 command kinds (named/unnamed, exit 0/non-zero/killed by a signal, writing none/one/both requested "
       "files) x the forms of the optional JobInput fields (files / envars / return_files each given, explicitly empty or omitted) x the "
-      "way the runner is started (absolute or relative output / scratch / job paths) and "
+      "way the runner is started (absolute or relative output / scratch / job paths; PATH overridden by the job's own envars, programs found only there) and "
       "computes, step by step as run_local does, the required result (executed prefix, captured names, returned files, exit "
       "status, no residue); each job is executed by the real _molli_run and its execution log, JobOutput (stdout/stderr "
       "content, files byte for byte, input hash), exit status, materialised text/binary inputs, environment override and "
@@ -274,7 +274,7 @@ check("C15",
       "steps the property accepts on every labelled graph with <=4 (quick) / <=5 (thorough) atoms, every start, direction, bond "
       "and neighbour order; the level-wise distance/bridge definitions equal the declarative ball definitions on all graphs with "
       "<=5/<=6 atoms; the extension matcher equals the declarative set of induced embeddings for all targets <=4 x connected "
-      "patterns <=3.  Then the real queries run on real Connectivity/Structure/Molecule/ConformerEnsemble objects for EVERY "
+      "patterns <=3.  Then the real queries run on real Connectivity/Structure/Molecule/ConformerEnsemble objects (random graphs also as Substructure views of a larger molecule) for EVERY "
       "labelled graph with <=5/<=6 atoms (every start, direction, bond, atom), every target <=4/<=5 x small connected patterns, "
       "and random graphs up to 40 atoms with random elements, bond types, bond order and cut-out patterns; every single yield, "
       "ring flag, listing and mapping list is validated by TLC against GraphQTrace.  Edit histories run over several handles on ONE "
